@@ -594,6 +594,13 @@ def parse_equation(equation: str) -> List[Symbol]:
     # Extract the terms from the equation
     terms = parse_equation_terms(equation)
 
+    # Error if there is no variable to assign to (the statement would
+    # otherwise be silently dropped)
+    if not any(t.type == Type.ENDOGENOUS for t in terms):
+        raise ParserError(
+            f"Unable to identify a left-hand side variable in: '{equation}'"
+        )
+
     # Construct standardised and code representations of the equation
     def escape_braces(text: str) -> str:
         # Any braces outside the terms aren't replacement fields: escape
